@@ -423,7 +423,7 @@ namespace {
       if (gr > 4 * U && gr < 1e-3L && (gB == 0 || gr < gB)) gB = gr;
     }
     R t = K_AN * std::sqrt(U);
-    if (degenerate) t = std::max(t, K_NEAR / 1000);
+    if (degenerate) t = R(0.5);  // as in C03
     else if (gB > 0) t = std::max(t, K_NEAR * U / std::max(gB, 1000 * U));
     return std::min(t, R(0.5));
   }
